@@ -3,11 +3,11 @@
 package c14
 
 import (
-	"time"
 	"errors"
 	"fmt"
 	"reflect"
 	"strings"
+	"time"
 
 	"go.uber.org/zap"
 	"go.uber.org/zap/verif/internal/ev"
@@ -34,13 +34,19 @@ func (o objV) MarshalLogObject(enc zapcore.ObjectEncoder) error { enc.AddInt("n"
 // errObj is an error that can also marshal itself as an object; strObj a Stringer that can.
 type errObj struct{ n int }
 
-func (o errObj) MarshalLogObject(enc zapcore.ObjectEncoder) error { enc.AddInt("errobj", o.n); return nil }
-func (o errObj) Error() string                                    { return fmt.Sprintf("errObj-%d", o.n) }
+func (o errObj) MarshalLogObject(enc zapcore.ObjectEncoder) error {
+	enc.AddInt("errobj", o.n)
+	return nil
+}
+func (o errObj) Error() string { return fmt.Sprintf("errObj-%d", o.n) }
 
 type strObj struct{ n int }
 
-func (o strObj) MarshalLogObject(enc zapcore.ObjectEncoder) error { enc.AddInt("strobj", o.n); return nil }
-func (o strObj) String() string                                   { return fmt.Sprintf("strObj-%d", o.n) }
+func (o strObj) MarshalLogObject(enc zapcore.ObjectEncoder) error {
+	enc.AddInt("strobj", o.n)
+	return nil
+}
+func (o strObj) String() string { return fmt.Sprintf("strObj-%d", o.n) }
 
 type arrErr []int
 
@@ -133,7 +139,7 @@ func sweep(args []interface{}) expect {
 		case error:
 			if !seenErr {
 				seenErr = true
-				e.fields = append(e.fields, zap.NamedError("error", a))
+				e.fields = append(e.fields, refValue("error", a))
 			} else {
 				e.extraErr = append(e.extraErr, a)
 			}
@@ -145,13 +151,26 @@ func sweep(args []interface{}) expect {
 			break
 		}
 		if k, ok := args[i].(string); ok {
-			e.fields = append(e.fields, zap.Any(k, args[i+1]))
+			e.fields = append(e.fields, refValue(k, args[i+1]))
 		} else {
 			e.badPairs = append(e.badPairs, badPair{i, args[i], args[i+1]})
 		}
 		i += 2
 	}
 	return e
+}
+
+// refValue is the field expected for a value. For a nil pointer of an error type the expectation is
+// spelled out here (the key is there, the value reads "<nil>") instead of being taken from zap's own
+// constructors: a value that is an error does not vanish from the context.
+func refValue(key string, v interface{}) zapcore.Field {
+	if p, ok := v.(*valErr); ok && p == nil {
+		return zap.String(key, "<nil>")
+	}
+	if err, ok := v.(error); ok && key == "error" {
+		return zap.NamedError(key, err)
+	}
+	return zap.Any(key, v)
 }
 
 func spyFields(fs []zapcore.Field) ([]rec.Call, string) {
